@@ -61,6 +61,14 @@ CHECKS = {
    text="Generated (API, length, mask of written slots, sharing state, fate) over all uninitialised constructors with identity-tracked header and elements: dropping before assume_init runs no element destructor and touches no unwritten slot, the header dies exactly once; assume_init keeps block, count and contents; afterwards every element dies exactly once; deprecated writers panic iff shared and change nothing.",
    note="Trusted: Tok registry (drops per id), 0xA5 fill + magic check for unwritten slots, tracking allocator.",
    technique="property-based testing over generated write-masks and sharing states with an identity-tracking oracle (proptest)"),
+ "C06": dict(engine="ctor", category="exploration", design="5 (C06)",
+   text="Generated (constructor, boundary-biased length 0..300, spare capacity, size_hint regime, element/header shape) over every moving and copying constructor with identity-tracked elements: contents, order, number, header and recorded length read back; each input destroyed exactly once by the resulting allocation; the source container's storage released during the call.",
+   note="Trusted: Tok registry, tracking allocator's per-call effect list.",
+   technique="property-based round-trip testing of constructors with identity-tracked payloads (proptest)"),
+ "C07": dict(engine="fault", category="fault_enumeration", design="5 (C07)",
+   text="Panic injected at the k-th invocation of every user callback (iterator next/len/size_hint, Clone, closures, comparison/hash/format), lying and changing length reports within +-2, and allocation failure at the k-th allocation of each constructor (complete grid, child processes); after the unwind every surviving handle is valid with an accurate count, every value is destroyed at most once, no unwritten slot is read or destroyed, only the half-built block of a panicking constructor may leak.",
+   note="Trusted: Tok registry + 0xA5 fill/magic check, tracking allocator, child-process termination status. k is sampled by proptest over the full reachable range for <=6 items; the allocation-failure grid is enumerated.",
+   technique="fault injection at generated crash points with an at-most-once / validity oracle (proptest + child processes)"),
 }
 NOT_YET = {
 }
@@ -98,6 +106,8 @@ m = {
    {"name": "cmp", "path": "harness/eng/src/cmp.rs", "serves_properties": ["C14"], "kind_free_text": "comparison/hash/format differential engine, exhaustive over a small domain + random"},
    {"name": "serde", "path": "harness/eng/src/serde_eng.rs", "serves_properties": ["C17"], "kind_free_text": "recording serializer/deserializer differential engine"},
    {"name": "uninit", "path": "harness/eng/src/uninit.rs", "serves_properties": ["C15"], "kind_free_text": "uninitialised-construction engine"},
+   {"name": "ctor", "path": "harness/eng/src/ctor.rs", "serves_properties": ["C06"], "kind_free_text": "constructor round-trip engine"},
+   {"name": "fault", "path": "harness/eng/src/ctor.rs", "serves_properties": ["C07"], "kind_free_text": "callback fault-injection engine + allocation-failure children"},
    {"name": "matrix", "path": "harness/mx/src/lib.rs", "serves_properties": ["C05", "C11", "C12"], "kind_free_text": "static shape matrix engine with an allocator-level observed oracle"},
    {"name": "hist", "path": "harness/hist/src/hist_sized.rs", "serves_properties": ["C01", "C03", "C04", "C08", "C09"], "kind_free_text": "model-based history engine (proptest-generated op sequences, reference model, tracking allocator, identity-tracked payloads)"},
  ],
